@@ -795,6 +795,114 @@ def query_suite(ctx, insts, users):
 
 
 # ---------------------------------------------------------------------------
+# k-qubit depolarizing channel: tie of T04_depolarizing_fast_eq_kraus_full_proved (Props/C04b)
+
+
+def depol_k_suite(ctx):
+    """both sides of the proved equation against the real code, exactly, for k <= 3 target qubits on
+    EVERY ordered tuple of an n <= 4 register (quick and thorough), Gaussian-integer non-Hermitian rho,
+    dyadic lam:
+      * `depolFast` (model)  ==  NumpyBackend.depolarizing_error_density_matrix (called directly);
+      * `depolChan` + generic path (model)  ==  NumpyBackend.apply_channel_density_matrix on the
+        channel object (all tuples for n <= 3; a seeded sample of the 4-qubit register);
+      * the constructor's object: 4^k - 1 gates on the tuple in the given order, the Pauli strings in
+        itertools.product("IXYZ") order without the identity, coefficient lam/4^k each,
+        coefficient_sum = their sum;
+      * on the real code itself: fast path == generic path (the Pauli-twirl identity)."""
+    from qibo import gates
+
+    nb = qgates.np_backend()
+    rng = ctx.rng
+    name = "C04_corr_depol_k"
+    P1 = {"I": np.eye(2), "X": np.array([[0, 1], [1, 0]]), "Y": np.array([[0, -1j], [1j, 0]]), "Z": np.diag([1, -1])}
+    lines, meta = [], []
+    bad = 0
+
+    def fail(key, what, expr, n, rho, body, expected=None, observed=None):
+        nonlocal bad
+        bad += 1
+        ctx.fail(key, what, replay(expr, n, rho, body), expected=expected, observed=observed, broken=[name])
+
+    for n in range(1, 5):
+        for k in range(1, min(n, 3) + 1):
+            tuples = placements(n, k)
+            if n <= 3 or k == 1:
+                generic = set(tuples)
+            elif k == 2:
+                generic = set(tuples if ctx.thorough else rng.sample(tuples, 4))
+            else:
+                generic = set(rng.sample(tuples, 8 if ctx.thorough else 1))
+            for qs in tuples:
+                a = rng.choice([1, 3, 5, 8, 11, 16])
+                expr = f"gates.DepolarizingChannel({qs!r}, {a}/16)"
+                rho = int_rho(rng, n)
+                try:
+                    ch = mk(expr)
+                    fast = np.asarray(nb.depolarizing_error_density_matrix(ch, rho.astype(complex), n))
+                    gen = np.asarray(nb.apply_channel_density_matrix(mk(expr), rho.astype(complex), n))
+                except Exception as e:  # noqa: BLE001
+                    report_raise(ctx, expr, n, "depolarizing_error_density_matrix", e, name)
+                    bad += 1
+                    continue
+                ctx.stat(f"depol_k:n{n}k{k}")
+                ctx.case(("depol_k", n, qs, a))
+                # the channel object the theorem speaks about
+                strs = list(itertools.product("IXYZ", repeat=k))[1:]
+                u = a / 16 / 4**k
+                ok_obj = (len(ch.gates) == 4**k - 1 and len(ch.coefficients) == 4**k - 1
+                          and all(c == u for c in ch.coefficients)
+                          and abs(ch.coefficient_sum - (4**k - 1) * u) < 1e-12
+                          and tuple(ch.target_qubits) == tuple(qs))
+                if ok_obj:
+                    for s_, g in zip(strs, ch.gates):
+                        m = np.array([[1.0]])
+                        for c in s_:
+                            m = np.kron(m, P1[c])
+                        # same operator on the register (the stored gate may list its qubits in another order)
+                        if not np.array_equal(_embed(n, list(g.qubits), np.asarray(g.matrix(nb))), _embed(n, list(qs), m)):
+                            ok_obj = False
+                            break
+                if not ok_obj:
+                    fail(f"depol-k:constructor:k{k}", f"{expr}: the channel object is not the {4**k - 1} non-identity Pauli strings on {qs} (product order) with coefficient lam/4^k",
+                         expr, n, rho,
+                         f"import itertools\nP1 = {{'I': np.eye(2), 'X': np.array([[0, 1], [1, 0]]), 'Y': np.array([[0, -1j], [1j, 0]]), 'Z': np.diag([1, -1])}}\n"
+                         f"strs = list(itertools.product('IXYZ', repeat={k}))[1:]\nassert len(ch.gates) == {4**k - 1} and all(c == {u!r} for c in ch.coefficients)\n"
+                         f"assert abs(ch.coefficient_sum - {(4**k - 1) * u!r}) < 1e-12\n"
+                         "for s_, g in zip(strs, ch.gates):\n    m = np.array([[1.0]])\n    for c in s_:\n        m = np.kron(m, P1[c])\n"
+                         f"    assert np.array_equal(_embed(n, list(g.qubits), np.asarray(g.matrix(nb))), _embed(n, {list(qs)!r}, m))\n")
+                # the twirl identity on the real code
+                if not np.allclose(fast, gen, atol=1e-12, rtol=0):
+                    fail(f"depol-k:twirl:k{k}", f"{expr} on {n} qubits: depolarizing_error_density_matrix differs from apply_channel_density_matrix on the channel's own Pauli operators",
+                         expr, n, rho,
+                         "fast = np.asarray(nb.depolarizing_error_density_matrix(ch, rho.astype(complex), n))\n"
+                         "gen = np.asarray(nb.apply_channel_density_matrix(mk(), rho.astype(complex), n))\n"
+                         "assert np.allclose(fast, gen, atol=1e-9), np.abs(fast - gen).max()",
+                         observed=str(np.abs(fast - gen).max()))
+                sc = 16 * 2**k
+                lines.append(f"GDEPOL {n} {k} {' '.join(map(str, qs))} {(16 - a) * 2**k} 0 {a} 0 {gi_tokens(rho)}")
+                meta.append(("fast", expr, n, k, qs, rho, fast, sc))
+                if qs in generic:
+                    sc2 = 16 * 4**k
+                    lines.append(f"GDEPOLC {n} {k} {' '.join(map(str, qs))} {sc2} 0 {a} 0 {gi_tokens(rho)}")
+                    meta.append(("generic", expr, n, k, qs, rho, gen, sc2))
+                    ctx.stat("depol_k:generic")
+    outs = run_driver(lines, driver=DRIVER)
+    for (which, expr, n, k, qs, rho, real, scale), out in zip(meta, outs):
+        model = parse_gi(out).reshape(2**n, 2**n)
+        if not np.array_equal(real * scale, model):
+            exp = (model / scale).tolist()
+            call = ("nb.depolarizing_error_density_matrix(ch, rho.astype(complex), n)" if which == "fast"
+                    else "nb.apply_channel_density_matrix(ch, rho.astype(complex), n)")
+            fail(f"depol-k:{which}:k{k}", f"{expr} on {n} qubits ({which} path): the real code differs from the model of the declared map",
+                 expr, n, rho, f"out = np.asarray({call})\nexpected = np.array({exp})\nassert np.allclose(out, expected, atol=1e-9), np.abs(out - expected).max()",
+                 expected=str(exp)[:400], observed=str(real.tolist())[:400])
+    ctx.ob(name, bad == 0, "correspondence", f"{bad} disagreements" if bad else "")
+    ctx.notes.append(f"k-qubit depolarizing (ties Props/C04b): depolFast vs depolarizing_error_density_matrix called directly and depolChan+generic path vs "
+                     f"apply_channel_density_matrix, exact, k<=3, every ordered tuple of n<=4 (fast path; generic path: all tuples n<=3, seeded sample n=4), "
+                     f"constructor object (Pauli strings, order, coefficients), real fast path == real generic path; {len(lines)} driver cases")
+
+
+# ---------------------------------------------------------------------------
 
 
 def run(ctx):
@@ -802,6 +910,7 @@ def run(ctx):
     ctx.theorems = THEOREMS
     build_and_audit(ctx, PROP, MODULES, THEOREMS)
     exact_suite(ctx)
+    depol_k_suite(ctx)
     insts = instances(ctx)
     users = user_channels(ctx)
     float_suite(ctx, insts)
@@ -810,7 +919,7 @@ def run(ctx):
     query_suite(ctx, insts, users)
     ctx.assumptions += [
         "complete positivity is structural in the model (non-negative combination of K rho K^dagger); on the real code it is checked numerically (Choi matrix of the executed map PSD)",
-        "depolarizing fast path = Pauli-twirl Kraus map is proved for one qubit; for k>=2 qubits it is covered by exact correspondence on every ordered tuple (n<=3, 4 thorough)",
+        "depolarizing fast path = Pauli-twirl Kraus map is proved for every k and every ordered duplicate-free tuple (T04_depolarizing_fast_eq_kraus_full_proved); both sides are tied exactly to the real code for k<=3 on every ordered tuple of n<=4 (C04_corr_depol_k)",
         "float constructors (sqrt/exp of the parameters) are compared with tolerance 1e-9; Lean Float and numpy both use IEEE doubles",
     ]
     ctx.trusted.append("numpy einsum/transpose/tensordot/reshape behave as modelled (differentially tested on Gaussian-integer data on every run)")
